@@ -521,3 +521,15 @@ Lemma wf_dec0 : wf dec0.
 Proof. unfold wf; cbn. split; [lia|reflexivity]. Qed.
 
 End P.
+
+(* non-vacuity: a concrete stream (schema with empty body, one batch with a 2-byte body, EOS) cut
+   inside the continuation marker with an empty chunk in between *)
+Example ipc_nonvacuous :
+  let orc := fun (k : nat) (_ : list N) => match k with O => MkInfo true 0 ONone 0%Z | _ => MkInfo true 2 OBatch 7%Z end in
+  let stream := [255; 255; 255; 255; 1; 0; 0; 0; 9;
+                 255; 255; 255; 255; 2; 0; 0; 0; 8; 8; 5; 6;
+                 255; 255; 255; 255; 0; 0; 0; 0]%N in
+  obs (run orc dec0 [firstn 3 stream; []; skipn 3 stream]) = obs (run orc dec0 [stream]) /\
+  obs (run orc dec0 [stream]) = ([EMsg 0 [9%N] []; EMsg 1 [8; 8]%N [5; 6]%N; EEos], false, true) /\
+  wf orc dec0.
+Proof. vm_compute. repeat split; try reflexivity; auto. Qed.
